@@ -81,6 +81,9 @@ impl FloatExt for f32 {
             (
                 if self.is_nan() || other.is_nan() {
                     f32::NAN
+                } else if self.is_sign_positive() {
+                    // equal values: prefer +0.0 over -0.0, whichever side it is on
+                    self
                 } else {
                     other
                 },
@@ -99,6 +102,9 @@ impl FloatExt for f32 {
             (
                 if self.is_nan() || other.is_nan() {
                     f32::NAN
+                } else if self.is_sign_negative() {
+                    // equal values: prefer -0.0 over +0.0, whichever side it is on
+                    self
                 } else {
                     other
                 },
